@@ -51,23 +51,26 @@ Proof. exact commitment_removed_only_by_ack. Qed.
 Print Assumptions C05_commitment_removed_only_by_ack.
 
 (** After an accepted acknowledgement of a packet, every later acknowledgement whose packet bytes decode to the same
-    triple — after any history without self-named client registrations — is rejected and leaves the whole state equal.
-    (Hypothesis O7 is necessary: Refuted/C05_selfclient.v, replayed on the real code.) *)
+    triple — after ANY history — is rejected and leaves the whole state equal.  ([inv4] of the state in which the first
+    acknowledgement is delivered includes "no client under the chain's own name"; that is an invariant of every history
+    since fix a9e74e1 (C04_noself_invariant), so it is a premise on the initial state only — necessary:
+    Refuted/C05_selfclient.v; before the fix a governance proposal could break it, as replayed on the pre-fix code by
+    seeded/C05-revert-fix-o7.) *)
 Theorem C05_ack_processed_once : forall P, real_keys P -> (forall x, sha256 P x <> []) ->
   forall env s m cb1 cb2 cb3 s1 ops env' m' cb1' cb2' cb3',
-  inv4 P s -> exec P env s (AAck m cb1 cb2 cb3) = Ok s1 -> ops_noself (st_name s) ops ->
+  inv4 P s -> exec P env s (AAck m cb1 cb2 cb3) = Ok s1 ->
   triple_of (fst (decode P (am_packet m'))) = triple_of (fst (decode P (am_packet m))) ->
   step P (run P s1 ops) (env', AAck m' cb1' cb2' cb3') = (run P s1 ops, false).
 Proof. intros P K. exact (ack_processed_once P (real_keys_ok P K)). Qed.
 Print Assumptions C05_ack_processed_once.
 
 (** setAckStatus (j = 0), sendPacketFeeToRelayer (j = 1) and OnAcknowledgePacket (j = 2) persist at most once per
-    (destination, sequence) in every such history. *)
+    (destination, sequence) in every history. *)
 Theorem C05_ack_effects_at_most_once : forall P, real_keys P -> (forall x, sha256 P x <> []) ->
   forall ops s j d k,
-  inv4 P s -> ops_noself (st_name s) ops -> acklog_ok P s -> valid_name P d = true ->
+  inv4 P s -> acklog_ok P s -> valid_name P d = true ->
   (cnt (ackev j d k) (log (st_app (run P s ops))) <= 1)%nat.
-Proof. intros P K. exact (ack_effects_at_most_once P (real_keys_ok P K)). Qed.
+Proof. intros P K. exact (ack_effects_once P (real_keys_ok P K)). Qed.
 Print Assumptions C05_ack_effects_at_most_once.
 
 (** The WHOLE state after an accepted receive addressed to this chain ("and nothing else changes"): receipt and
@@ -109,14 +112,14 @@ Proof. intros P K Sh. exact (ack_step_effects P Sh). Qed.
 Print Assumptions C05_ack_step_effects.
 
 (** Every state reachable from a fresh chain (empty packet families, contract counters never set, empty ghost log, valid
-    names, no self-named client) by ANY history without a self-named client registration satisfies all four
+    names, no self-named client) by ANY history satisfies all four
     invariants at once: [inv4] (counters agree, own commitments below the counter), [inv5] (acks have receipts; foreign
     commitments have a receipt and no ack), [log_ok] (each receive effect / written ack logged at most once, and only
     with its receipt / ack in the store), [acklog_ok] (each ack effect at most once, and only for acknowledged
     packets).  So the hypotheses [inv4] / [inv5] / [log_ok] / [acklog_ok] of the theorems above are met by every
     reachable state, not only by the example states. *)
 Theorem C05_reachable_invariants : forall P, real_keys P -> (forall x, sha256 P x <> []) -> forall ops s,
-  fresh P s -> ops_noself (st_name s) ops -> all_inv P (run P s ops).
+  fresh P s -> all_inv P (run P s ops).
 Proof. intros P K Sh. exact (reachable_all_inv P (real_keys_ok P K) Sh). Qed.
 Print Assumptions C05_reachable_invariants.
 
